@@ -39,6 +39,9 @@ SPRITE_VARIANTS = ('lists', 'lists', 'tuples', 'generator_of_lists', 'iterators'
 RECT_VARIANTS = ('lists', 'lists', 'tuples', 'generator_of_lists', 'reversed_iterators', 'bytes_rows', 'same_object_twice')
 
 
+CTX = [None]      # the shard's context, for the call-shape rotation and its feature tags
+
+
 def _edge_amount(rng):
     """How far past an edge: -1, 0, +1, many."""
     return rng.choice((-3, -1, 0, 1, 2, 9, 40))
@@ -131,6 +134,29 @@ def gen_op(rng):
     raise AssertionError(op)
 
 
+def call_with_defaults(ctx, fn, lead, opt, names, defaults, k):
+    """Call fn(*lead, <optional arguments>) in one of the shapes the signature allows - keywords, positional, and with every optional
+    argument that has its documented default value left out (all / the last / the first) - rotating with k."""
+    shape = ('keywords', 'positional', 'defaults_omitted', 'keywords', 'last_omitted_if_default', 'first_omitted_if_default')[k % 6]
+    if shape == 'positional':
+        ctx.feature('call_shape:positional')
+        return fn(*lead, *opt)
+    kw = dict(zip(names, opt))
+    if shape == 'defaults_omitted':
+        kw = {n: v for n, v in kw.items() if v != defaults[n]}
+    elif shape == 'last_omitted_if_default' and opt[-1] == defaults[names[-1]]:
+        del kw[names[-1]]
+    elif shape == 'first_omitted_if_default' and opt[0] == defaults[names[0]]:
+        del kw[names[0]]
+    if len(kw) < len(names):
+        ctx.feature('call_shape:optional_argument_left_out')
+        if len(kw) == len(names) - 1:
+            ctx.feature('call_shape:one_of_two_optional_arguments_given')
+    else:
+        ctx.feature('call_shape:keywords')
+    return fn(*lead, **kw)
+
+
 def classify(op):
     """Mechanism key if the call exercises a (formerly) defective edge, else None."""
     name = op[0]
@@ -165,7 +191,8 @@ def apply(g, sh, op):
             obj = [list(a[1][0])] * len(a[1]) if a[1] else []
         else:
             obj = [bytearray(r) if i % 2 else list(r) for i, r in enumerate(a[1])]
-        g.gfx.set_sprite(a[0], obj, tile_x_offset=a[2], tile_y_offset=a[3])
+        call_with_defaults(CTX[0], g.gfx.set_sprite, (a[0], obj), (a[2], a[3]), ('tile_x_offset', 'tile_y_offset'),
+                           {'tile_x_offset': 0, 'tile_y_offset': 0}, a[0] + a[2] + a[3])
         sh.set_sprite(a[0], a[1], a[2], a[3])
         if variant == 'same_object_twice':
             # the caller draws the same sprite object again somewhere else: it still is the sprite the caller made
@@ -173,7 +200,8 @@ def apply(g, sh, op):
             g.gfx.set_sprite(id2, obj, tile_x_offset=a[3], tile_y_offset=a[2])
             sh.set_sprite(id2, a[1], a[3], a[2])
     elif name == 'get_sprite':
-        got = g.gfx.get_sprite(a[0], tile_width=a[1], tile_height=a[2])
+        got = call_with_defaults(CTX[0], g.gfx.get_sprite, (a[0],), (a[1], a[2]), ('tile_width', 'tile_height'),
+                                 {'tile_width': 1, 'tile_height': 1}, a[0] + a[1] + a[2])
         return [bytes(r) for r in got], [bytes(r) for r in sh.get_sprite(a[0], a[1], a[2])]
     elif name == 'set_cell':
         g.map.set_cell(*a)
@@ -181,10 +209,12 @@ def apply(g, sh, op):
     elif name == 'get_cell':
         return g.map.get_cell(*a), sh.get_cell(*a)
     elif name == 'get_rect_tiles':
-        return ([bytes(r) for r in g.map.get_rect_tiles(a[0], a[1], width=a[2], height=a[3])],
+        return ([bytes(r) for r in call_with_defaults(CTX[0], g.map.get_rect_tiles, (a[0], a[1]), (a[2], a[3]), ('width', 'height'),
+                                                       {'width': 1, 'height': 1}, a[0] + a[1] + a[2] + a[3])],
                 [bytes(r) for r in sh.get_rect_tiles(*a)])
     elif name == 'get_rect_pixels':
-        return ([bytes(r) for r in g.map.get_rect_pixels(a[0], a[1], width=a[2], height=a[3])],
+        return ([bytes(r) for r in call_with_defaults(CTX[0], g.map.get_rect_pixels, (a[0], a[1]), (a[2], a[3]), ('width', 'height'),
+                                                       {'width': 1, 'height': 1}, a[0] + a[1] + a[2] + a[3])],
                 [bytes(r) for r in sh.get_rect_pixels(*a)])
     elif name == 'set_rect_tiles':
         variant = a[3] if len(a) > 3 else 'lists'
@@ -237,6 +267,7 @@ def apply(g, sh, op):
 
 def step(ctx, g, sh, op, history, init):
     """One monitored call.  Returns False when the history must be abandoned."""
+    CTX[0] = ctx
     name = op[0]
     is_get = name.startswith('get_')
     key = classify(op)
@@ -409,6 +440,7 @@ def run_shard(spec, ctx):
 
 
 def replay(case, ctx):
+    CTX[0] = ctx
     init = case['init']
     g = carts.make_game({n: init[a:b] for n, (a, b) in REGIONS})
     sh = Shadow(init)
@@ -443,6 +475,9 @@ def gates(m, tier):
     for k in ('p8', 'p8_map_first', 'p8_no_map', 'p8_no_gff', 'png'):
         if f.get('game_loaded_from:' + k, 0) < 3:
             missed.append('histories on a game loaded from %s: %d' % (k, f.get('game_loaded_from:' + k, 0)))
+    for k in ('keywords', 'positional', 'optional_argument_left_out', 'one_of_two_optional_arguments_given'):
+        if f.get('call_shape:' + k, 0) < 200:
+            missed.append('calls in the shape %s: %d' % (k, f.get('call_shape:' + k, 0)))
     if f.get('histories_completed', 0) < 50:
         missed.append('only %d histories ran to completion' % f.get('histories_completed', 0))
     return missed
